@@ -20,7 +20,8 @@ The attribute section is executed a second time on the cursor-level model (`Mode
 bytes of the write buffer, failing writes that leave a part behind (worst case: every free byte),
 explicit rewind positions, the list index of `send_array_items`, loops with fuel); the reports that
 start in the bytes of each message it sends, and the message lengths, must be those of the messages
-just compared with the implementation (`cursorCheck`, verdict `DIS cursor …`).
+just compared with the implementation (`cursorCheck`, verdict `DIS cursor …`).  This is a consistency
+check of the two models (provably redundant: `cursor_attr_section`), not a tie to the code.
 
 The event queue itself is modelled too (`Model/ChunkEvents.lean`): from the pushed events (priority,
 length of the event in the queue = report length − `KR`) the model predicts which events survive
